@@ -1,11 +1,11 @@
 ------------------------ MODULE MC_ReassemblyHonest ------------------------
 (* Every delivery schedule (permutation, duplication, drop, interleaving) of the  *)
 (* frames of a few honestly fragmented packets over Q slots.                      *)
-EXTENDS ReassemblyHonest
+EXTENDS ReassemblyHonest, Json
 
-CONSTANTS Depth
+CONSTANTS Depth, GEN
 
-VARIABLE n
+VARIABLES n, h   \* h: history, hidden from the fingerprint by VIEW
 
 \* honest packets: [so, size, w] (w = payload window of the sender's MTU)
 Pkts == { [so |-> 10, size |-> 5, w |-> 2],     \* 3 frames: 2,2,1
@@ -18,9 +18,13 @@ FrameOf(p, i) == [so |-> p.so, off |-> i * p.w,
                   len |-> IF i = NF(p) - 1 THEN p.size - i * p.w ELSE p.w,
                   last |-> i = NF(p) - 1]
 
-MCInit == HInit /\ n = 0
+MCInit == HInit /\ n = 0 /\ h = <<>>
 MCNext == /\ n < Depth
           /\ n' = n + 1
-          /\ \E p \in Pkts : \E i \in 0 .. (NF(p) - 1) : HRecv(FrameOf(p, i), i, NF(p), p.size)
-MCSpec == MCInit /\ [][MCNext]_<<hvars, n>>
+          /\ \E p \in Pkts : \E i \in 0 .. (NF(p) - 1) :
+                /\ HRecv(FrameOf(p, i), i, NF(p), p.size)
+                /\ h' = Append(h, [f |-> FrameOf(p, i), o |-> out'])
+MCSpec == MCInit /\ [][MCNext]_<<hvars, n, h>>
+MCView == <<hvars, n>>
+Emit == GEN => (n = 0 \/ PrintT(<<"REPLAY", ToJson(h)>>))
 =============================================================================
